@@ -384,6 +384,47 @@ def bech32_guards(ctx):
     ctx.require(gens == [0x3b6a57b2, 0x26508e6d, 0x1ea119fa, 0x3d4233dd, 0x2a1462b3], q4, 'generator constants %s differ from BIP173' % [hex(g) for g in gens], fn4)
 
 
+@PROP.obligation('C11.hrp-guard', canaries=[
+    mut.replace_expr('encoding', 'addr_bech32_to_pubkeyhash', 'prefix != bech[:pos]', 'not bech.startswith(prefix)', 'expected prefix only has to be a leading substring'),
+    mut.replace_expr('encoding', 'addr_bech32_to_pubkeyhash', 'prefix != bech[:pos]', 'prefix not in bech[:pos]', 'expected prefix only has to occur in the human readable part'),
+    mut.replace_expr('encoding', 'addr_bech32_to_pubkeyhash', "bech.rfind('1')", "bech.find('1')", 'separator is the first 1 instead of the last'),
+])
+def hrp_guard(ctx):
+    """addr_bech32_to_pubkeyhash evaluated on concrete strings up to the charset decoding: with an expected prefix the data part is
+    decoded only when the human readable part EQUALS it (bcrt1... is not a bc address, tb1... not a t address), case-folded as BIP173
+    prescribes, and the data part is exactly what follows the LAST separator."""
+    q = 'encoding:addr_bech32_to_pubkeyhash'
+    fn = ctx.repo.func(q)
+    tail = 'qw508d6qejxtdg4y5r3zarvary0c5xw7kv8f3t4'
+    cases = [('bcrt1' + tail, 'bc', None), ('bc1' + tail, 'bc', tail), (('bc1' + tail).upper(), 'bc', tail), ('tb1' + tail, 't', None), ('tb1' + tail, 'tb', tail),
+             ('bc1' + tail, 'tb', None), ('ltc1' + tail, 'lt', None), ('bc1' + tail, 'b', None), ('bc1' + tail, 'bc1', None), ('tltc1' + tail, 'ltc', None),
+             ('bc1' + tail, None, tail), ('bcrt1' + tail, None, tail), ('a1b1' + tail, 'a', None), ('a1b1' + tail, 'a1b', tail)]
+    n = 0
+    for bech, prefix, want in cases:
+        reached = []
+
+        def hook(it, args, kwargs, st, node):
+            reached.append(term(args[0]) if args else None)
+            return S(('var', 'data'), 'list')
+        it = Interp(ctx.repo, 'encoding', hooks={'_codestring_to_array': hook})
+        try:
+            exits = it.run_function(fn, {'bech': bech, 'prefix': prefix, 'include_witver': False, 'as_hex': False})
+        except AnalysisError as e:
+            if not reached:
+                ctx.undecided('addr_bech32_to_pubkeyhash(%r, prefix=%r) not evaluable up to the charset decoding: %s' % (bech[:8] + '...', prefix, str(e)[:80]))
+            exits = []
+        if not reached and any(e.pc for e in exits):
+            ctx.undecided('addr_bech32_to_pubkeyhash(%r, prefix=%r): the outcome before decoding depends on %s' % (bech[:8] + '...', prefix, [show(t)[:60] for e in exits for t, _ in e.pc][:2]))
+        n += 1
+        ctx.saw('%s... with expected prefix %r -> %s' % (bech[:6], prefix, 'decodes %r' % (reached[0],) if reached else 'refused before decoding'))
+        if want is None:
+            ctx.require(not reached, q, 'the string %s... (human readable part %r) passes the guard for the expected prefix %r and is decoded' % (bech[:8], bech.lower()[:bech.rfind('1')], prefix), fn,
+                        'an address of another network whose prefix merely starts with the expected one is verified against its own prefix and its payload returned')
+        else:
+            ctx.require(bool(reached) and reached[0] == want, q, 'the string %s... with expected prefix %r %s' % (bech[:8], prefix, 'hands %r to the charset decoding instead of the part after the last separator' % (reached[0],) if reached else 'is refused before decoding (or the charset decoding helper is no longer called)'), fn)
+    ctx.floor(n, 14, 'prefix scenarios')
+
+
 @PROP.obligation('C11.version', canaries=[
     mut.drop_stmt('keys', 'Key.__init__', 'if not len(found_networks)', 'Key.__init__: unknown WIF version byte accepted'),
     mut.drop_stmt('keys', 'HDKey.from_wif', 'if not prefix_data', 'HDKey.from_wif: unknown prefix accepted'),
